@@ -51,6 +51,125 @@ fn corpus() -> Vec<(String, Vec<Step>)> {
     v
 }
 
+/// Heights at which the rules change on a network (Prague activation; transaction hash = hash of the raw
+/// transaction instead of the signing hash).
+pub fn fork_heights(network: &str) -> Vec<u64> {
+    match network {
+        "mainnet" => vec![923_369, 929_000],
+        "signet" => vec![275_000],
+        _ => vec![],
+    }
+}
+
+/// Child (`vmc forks <network>`): one linear history that crosses every fork height of the network with an
+/// inscription call and a signed transaction to the context probe in each of the blocks F-2 .. F+1; prints the
+/// digest of every call outcome and of the observation taken after each crossing.
+pub fn forks_main(network: &str) {
+    crate::inst::set_config(network, true);
+    let mut inst = Inst::fresh();
+    let mut w = World::new();
+    let mut text = String::new();
+    let mut setup = start_with_s();
+    setup.extend(block(vec![TxSpec::Deploy { pk: 1, code: crate::asm::ctx_initcode(), len: DEFAULT_LEN }]));
+    for s in &setup {
+        let o = w.exec(&mut inst, s);
+        text.push_str(&canon(&o.outcome.to_value()));
+        text.push('\n');
+    }
+    let ctx = Tgt::Created { pk: 1, nonce: 0 };
+    let mut nonce = 0u64;
+    let mut crossed = Vec::new();
+    let mut ok = true;
+    for f in fork_heights(network) {
+        let mut h = w.h.unwrap();
+        let target = f - 3;
+        while h < target {
+            let n = (target - h).min(50_000);
+            let r = inst.call("brc20_mine", json!([n, 1_700_000_000u64]));
+            if !r.is_ok() {
+                ok = false;
+                break;
+            }
+            h += n;
+            inst.call("brc20_commitToDatabase", json!([]));
+        }
+        w.h = Some(h);
+        w.max_ever = Some(h);
+        w.uni.max_height = h;
+        for _ in 0..4 {
+            for tx in [TxSpec::Call { pk: 0, tgt: ctx.clone(), data: vec![0], len: DEFAULT_LEN }, TxSpec::Transact { signer: 0, nonce, tgt: ctx.clone(), data: vec![nonce as u8], len: DEFAULT_LEN }] {
+                let o = w.exec(&mut inst, &Step::Tx(tx));
+                text.push_str(&canon(&o.outcome.to_value()));
+                text.push('\n');
+            }
+            nonce += 1;
+            let o = w.exec(&mut inst, &Step::Fin);
+            text.push_str(&canon(&o.outcome.to_value()));
+            text.push('\n');
+            // what the probe recorded in this block
+            let a = ctx.resolve().unwrap();
+            for slot in 0..20u64 {
+                text.push_str(&canon(&inst.call("eth_getStorageAt", json!([a, format!("0x{:x}", slot)])).to_value()));
+                text.push('\n');
+            }
+        }
+        text.push_str(&obs::obs(&mut inst, &w.uni, &ObsCfg::default()));
+        crossed.push(f);
+    }
+    drop(inst);
+    crate::inst::cleanup_scratch();
+    println!("@@FORKS {}", serde_json::to_string(&json!({"network": network, "ok": ok, "crossed": crossed, "top": w.h, "bytes": text.len(), "digest": sha256::digest(text)})).unwrap());
+}
+
+pub fn forks_spawn() -> Vec<(String, std::process::Child)> {
+    let exe = std::env::current_exe().expect("exe");
+    ["mainnet", "signet"].iter().map(|n| (n.to_string(), std::process::Command::new(&exe).arg("forks").arg(n).stdout(std::process::Stdio::piped()).stderr(std::process::Stdio::null()).spawn().expect("spawn forks child"))).collect()
+}
+
+fn forks_wait(children: Vec<(String, std::process::Child)>) -> Result<BTreeMap<String, Value>, String> {
+    let mut out = BTreeMap::new();
+    for (net, ch) in children {
+        let o = ch.wait_with_output().map_err(|e| e.to_string())?;
+        let so = String::from_utf8_lossy(&o.stdout).to_string();
+        let l = so.lines().rev().find(|l| l.starts_with("@@FORKS ")).ok_or_else(|| format!("fork-boundary child for {} produced nothing (exit {:?})", net, o.status.code()))?;
+        let v: Value = serde_json::from_str(&l["@@FORKS ".len()..]).map_err(|e| e.to_string())?;
+        if v["ok"] != json!(true) {
+            return Err(format!("fork-boundary child for {}: mining towards the fork height failed", net));
+        }
+        out.insert(net, v);
+    }
+    Ok(out)
+}
+
+fn forks_path() -> std::path::PathBuf {
+    crate::evidence::verif_root().join("golden").join("forks.json")
+}
+
+/// Compare the fork-boundary digests with the pinned ones (same version clause as the corpus digests).
+pub fn forks_collect(children: Vec<(String, std::process::Child)>) -> (Value, Vec<Violation>, Vec<String>) {
+    let mut vs = Vec::new();
+    let mut errors = Vec::new();
+    let (pv, dv) = versions();
+    let got = match forks_wait(children) {
+        Ok(g) => g,
+        Err(e) => return (json!({}), vs, vec![e]),
+    };
+    let mut report = serde_json::Map::new();
+    match std::fs::read_to_string(forks_path()).ok().and_then(|s| serde_json::from_str::<Value>(&s).ok()) {
+        Some(g) => {
+            let same_version = g["protocol_version"].as_str() == Some(pv.as_str()) && g["db_version"].as_str() == Some(dv.as_str());
+            for (net, v) in &got {
+                if same_version && g["digests"][net] != v["digest"] {
+                    vs.push(Violation { property: "C02".into(), kind: "differs-from-pinned-digest".into(), scenario: "golden".into(), start: net.clone(), path: vec![format!("linear history across the fork heights {}", v["crossed"])], steps: vec![], detail: format!("linear history on {} crossing the heights {} (inscription call and signed transaction to the context probe in the four blocks around each): digest {} but {} is pinned for protocol version {}", net, v["crossed"], v["digest"], g["digests"][net], pv) });
+                }
+                report.insert(net.clone(), json!({"crossed": v["crossed"], "top": v["top"], "bytes": v["bytes"], "compared_with_pinned": same_version}));
+            }
+        }
+        None => errors.push("no pinned fork-boundary digests".into()),
+    }
+    (Value::Object(report), vs, errors)
+}
+
 pub fn versions() -> (String, String) {
     let dir = fresh_dir();
     let cfg = brc20_prog::Brc20ProgConfig::new("127.0.0.1:0".into(), false, None, None, true, 1, "http://127.0.0.1:1".into(), "x".into(), "x".into(), "regtest".into(), 1, false, dir.to_string_lossy().to_string(), 1, 1, 1);
@@ -110,6 +229,10 @@ pub fn record() {
         std::fs::write(golden_path(net), serde_json::to_string_pretty(&json!({"protocol_version": pv, "db_version": dv, "network": net, "digests": d})).unwrap()).expect("write golden");
         println!("recorded {} digests for {}", d.len(), net);
     }
+    let got = forks_wait(forks_spawn()).expect("fork-boundary digests");
+    let digests: BTreeMap<String, Value> = got.iter().map(|(k, v)| (k.clone(), v["digest"].clone())).collect();
+    std::fs::write(forks_path(), serde_json::to_string_pretty(&json!({"protocol_version": pv, "db_version": dv, "digests": digests})).unwrap()).expect("write golden");
+    println!("recorded fork-boundary digests: {:?}", got.iter().map(|(k, v)| format!("{} {}", k, v["crossed"])).collect::<Vec<_>>());
 }
 
 /// Two separate processes per network must agree with each other and with the pinned digests.
